@@ -25,6 +25,8 @@ type BrokerCfg struct {
 	FailCodePermil  int  // share of chunk results that carry a failure code
 	ConnectCode     message.ResultCode
 	ReuseAliases    bool // a closed upstream's stream id alias is given to the next upstream opened on the connection
+	SharedSessions  bool // remote upstreams come in pairs with the same source node and session id, different stream ids
+	AliasFromZero   bool // stream id aliases are numbered from 0 on every connection (0 is an alias like any other)
 }
 
 type pt struct {
@@ -266,11 +268,15 @@ func (b *Broker) upByAlias(l *Link, alias uint32) *bUp {
 
 // allocUpAlias hands out the stream id alias of a new or resumed upstream on connection c.
 func (b *Broker) allocUpAlias(c *bConn, l *Link) uint32 {
+	first := uint32(1)
+	if b.Cfg.AliasFromZero {
+		first = 0
+	}
 	if !b.Cfg.ReuseAliases {
 		c.nextUpAlias++
-		return c.nextUpAlias
+		return c.nextUpAlias - 1 + first
 	}
-	for a := uint32(1); ; a++ {
+	for a := first; ; a++ {
 		used := false
 		for _, u := range b.Ups {
 			if x, ok := u.aliasOn[l.ID]; ok && x == a && !u.Closed {
@@ -279,8 +285,8 @@ func (b *Broker) allocUpAlias(c *bConn, l *Link) uint32 {
 			}
 		}
 		if !used {
-			if a > c.nextUpAlias {
-				c.nextUpAlias = a
+			if a+1 > c.nextUpAlias {
+				c.nextUpAlias = a + 1
 			} else {
 				b.s.Stat("env.upstream-alias-reused-by-broker")
 			}
@@ -722,8 +728,12 @@ func (b *Broker) noteConnectAttempt(l *Link, t *message.ConnectRequest) {
 func (b *Broker) Remote(i int) *remoteUp {
 	for len(b.Remotes) <= i {
 		n := len(b.Remotes) + 1
-		b.Remotes = append(b.Remotes, &remoteUp{Info: message.UpstreamInfo{
-			SessionID: fmt.Sprintf("sess-%d", n), SourceNodeID: fmt.Sprintf("node-%d", (n-1)%3+1), StreamID: mkUUID(0xE0, n)}})
+		info := message.UpstreamInfo{SessionID: fmt.Sprintf("sess-%d", n), SourceNodeID: fmt.Sprintf("node-%d", (n-1)%3+1), StreamID: mkUUID(0xE0, n)}
+		if b.Cfg.SharedSessions {
+			k := (n-1)/2%3 + 1
+			info.SessionID, info.SourceNodeID = fmt.Sprintf("sess-of-node-%d", k), fmt.Sprintf("node-%d", k)
+		}
+		b.Remotes = append(b.Remotes, &remoteUp{Info: info})
 	}
 	return b.Remotes[i]
 }
